@@ -1,6 +1,7 @@
 package seqio
 
 import (
+	"fmt"
 	"io"
 
 	"github.com/go-gts/gts"
@@ -31,10 +32,33 @@ func NewAutoScanner(r io.Reader) *Scanner {
 	return NewScanner(nil, r)
 }
 
+// atEnd tests if nothing but blanks and line ends remain in the input.
+func (s *Scanner) atEnd() bool {
+	s.s.Push()
+	pars.Spaces(s.s, pars.Void)
+	err := pars.End(s.s, pars.Void)
+	s.s.Pop()
+	return err == nil
+}
+
+// truncated turns an error caused by the input running out inside a record
+// into one that is reported by Err.
+func truncated(err error) error {
+	if err != nil && dig(err) == io.EOF {
+		return fmt.Errorf("unexpected end of input: %v", err)
+	}
+	return err
+}
+
 // Scan advances the scanner using the given parser. If the parser is not yet
 // specified, the first scan will match one of the known parsers.
 func (s *Scanner) Scan() bool {
 	if s.err != nil {
+		return false
+	}
+
+	if s.atEnd() {
+		s.err = io.EOF
 		return false
 	}
 
@@ -62,11 +86,12 @@ func (s *Scanner) Scan() bool {
 				maxpos = v.pos
 			}
 		}
-		s.err = errs[argmax].err
+		s.err = truncated(errs[argmax].err)
 		return false
 	}
 
 	s.res, s.err = s.p.Parse(s.s)
+	s.err = truncated(s.err)
 	return s.err == nil
 }
 
